@@ -13,7 +13,7 @@ RULE = ("(i) valid alignments under random re-layouts (line width, CRLF, blank l
         "or malformed. Distinct by (reader, file bytes).")
 ASSUMPTIONS = ["header text is ASCII (strings.Fields on UTF-8 white space is outside the model)",
                "lines shorter than the 1 MiB scanner token limit (long lines of 70,000 and 200,000 symbols are exercised Go against Go: "
-               "one-line layout vs 70-column layout must read alike in every reader)"]
+               "one-line layout vs 70-column layout must read alike in every reader; a line of 1.1 MB must be refused with an error by every reader, not end the file quietly)"]
 
 
 def make_case(cid, reader, hard, refid, data, meta, expect=None):
@@ -124,9 +124,33 @@ def extra(ctx, obl, cases, obs):
                         % (reader, width, ra["status"], ra.get("err", "")[:120], rb["status"], rb.get("err", "")[:120]),
                 "case": {"op": "read_fasta", "reader": reader, "note": "file omitted (two records of %d random symbols on one line each)" % width}})
 
+    # a line beyond the readers' 1 MiB limit - a header after two complete records, a third sequence line of the first record:
+    # "either read or rejected with an error": every reader refuses it (or, should the limit ever be raised, reads ALL of it);
+    # the records read so far are never returned as if they were the file
+    big = 1100000
+    files = {"a header line of 1.1 MB after two complete records": (b">a\nACGT\n>b\nACGT\n>" + b"x" * big + b"\nACGT\n", 3),
+             "a third sequence line of 1.1 MB in the first record": (b">a\n" + b"ACGT" * 15 + b"\n" + b"ACGT" * 15 + b"\n" + b"A" * big + b"\n", 1)}
+    stage2, plan2 = [], []
+    for what, (data, nrec) in files.items():
+        for reader in READERS:
+            stage2.append({"id": len(stage2), "op": "read_fasta", "reader": reader, "hard": False, "file": cm.b64(data), "refid": cm.b64(b"a")})
+            plan2.append((what, reader, nrec))
+    res2 = cm.go_run(stage2, ctx.log)
+    _state["over_limit_runs"] = len(stage2)
+    for k, (what, reader, nrec) in enumerate(plan2):
+        o = res2[k]
+        if o["status"] == "err":
+            continue
+        out = cm.unb64(o.get("out", "")) if o["status"] == "ok" else b""
+        complete = o["status"] == "ok" and (reader == "findref" or out.count(b"\n") == nrec) and len(out) > (big if nrec == 1 or reader != "findref" else 0)
+        if not complete:
+            cm.violation(ctx, "failing-input", {
+                "what": "reader %s, %s: neither refused with an error nor read whole (status %s, %d bytes of records returned)" % (reader, what, o["status"], len(out)),
+                "case": {"op": "read_fasta", "reader": reader, "note": "file omitted: " + what}, "returned": out[:300].decode("latin1")})
+
 
 _state = {}
 
 
 def coverage_extra(ctx):
-    return {"long_line_runs": _state.get("long_line_runs", 0)}
+    return {"long_line_runs": _state.get("long_line_runs", 0), "over_limit_runs": _state.get("over_limit_runs", 0)}
